@@ -16,6 +16,21 @@ type lineLimitReader struct {
 	LineLimit int
 
 	curLineLength int
+
+	// readErr is the error the underlying Reader returned last, if any. The
+	// buffered reader above drops it when it already holds part of a line.
+	readErr error
+}
+
+// takeReadErr returns the error the underlying Reader reported since the last
+// call, if any, and forgets it. Safe to call on a nil reader.
+func (r *lineLimitReader) takeReadErr() error {
+	if r == nil {
+		return nil
+	}
+	err := r.readErr
+	r.readErr = nil
+	return err
 }
 
 // setLimit changes the limit. Octets seen before the change (read ahead while
@@ -51,6 +66,7 @@ func (r *lineLimitReader) Read(b []byte) (int, error) {
 
 	n, err := r.R.Read(b)
 	if err != nil {
+		r.readErr = err
 		return n, err
 	}
 
